@@ -141,10 +141,13 @@ fn build_file<'a>(
     if validate {
         builder.enable_validate_mode();
     }
-    builder.build(file_path_buf)?;
+    let result = builder.build(file_path_buf);
     if validate {
+        // The assertions that were evaluated are part of the log of the
+        // file, also when the build fails after them.
         println!("{}", builder.assert_summary());
     }
+    result?;
     Ok(builder)
 }
 
